@@ -18,6 +18,9 @@ History data (JSON-able):
                                                         no DAGNode API is called
   m   = node id (int) | "j<k>"                         k-th non-node object (None, 7, "s", object())
   f   = "none" | "pre" | "post"                        user hook of that assignment raising
+optional key "iter": v — after the history, `dag_iterator(node v)` of the final state is compared (as a multiset of
+(parent, child) pairs) with `Dag.dagIter (DagStore.toDag s) v` of the model's final store: the tie of the bridge
+lean/BigtreeProofs/Properties/DagBridge.lean (only generated for checks-on histories with pairwise distinct names).
 """
 from __future__ import annotations
 import gc, itertools, json, random, sys
@@ -85,7 +88,8 @@ def op_tok(op) -> str:
 
 def line_of(d) -> str:
     names = ",".join(hx(x) for x in d["names"]) if d["names"] else "-"
-    return (f"cls=dag n={d['n']} asrt={d['asrt']} names={names} ops= "
+    it = f" iter={d['iter']}" if d.get("iter") is not None else ""
+    return (f"cls=dag n={d['n']} asrt={d['asrt']} names={names}{it} ops= "
             + " ".join(op_tok(o) for o in d["ops"])).rstrip() + ("" if d["ops"] else "")
 
 
@@ -378,9 +382,35 @@ def _fmt_snap(snap) -> str:
     return " ".join(f"{i}:{_ms(p)}/{_ms(c)}" for i, (p, c) in enumerate(snap))
 
 
+def _real_iter(d, asrt) -> str:
+    """replay the history on fresh real objects and drive `dag_iterator` from node d["iter"] of the final state"""
+    import bigtree.node.dagnode as dn
+    from bigtree import dag_iterator
+    old = dn.ASSERTIONS
+    dn.ASSERTIONS = asrt
+    timer = _arm(HANG_SECONDS)
+    try:
+        w = World(d["names"])
+        for op in d["ops"]:
+            w.apply(op)
+        pairs = [(w.ident(p), w.ident(c)) for p, c in dag_iterator(w.reg[d["iter"]])]
+    except _Timeout:
+        return "iter hang"
+    except Exception as e:  # noqa: BLE001
+        return "iter crash:" + type(e).__name__
+    finally:
+        _disarm(timer)
+        dn.ASSERTIONS = old
+    return "iter " + (",".join(f"{p}>{c}" for p, c in pairs) if pairs else "-")
+
+
 def impl_history(d, assertions=None) -> str:
     tr = run_real(d, assertions)
-    return " ; ".join(f"{o} {_fmt_snap(s)}" for o, s, _ in tr[1:])
+    out = " ; ".join(f"{o} {_fmt_snap(s)}" for o, s, _ in tr[1:])
+    if d.get("iter") is not None:
+        asrt = bool(d["asrt"]) if assertions is None else bool(assertions)
+        out += " ; " + _real_iter(d, asrt)
+    return out
 
 
 def impl(case) -> str:
@@ -394,6 +424,9 @@ def _parse_out(s):
     res = []
     for part in s.split(" ; "):
         toks = part.split(" ")
+        if toks[0] == "iter":      # the iterator of the final state: a multiset of pairs
+            res.append(("iter", sorted(toks[1].split(","))))
+            continue
         nodes = []
         for t in toks[1:]:
             i, rest = t.split(":", 1)
@@ -1041,8 +1074,21 @@ def gen_histories(rng, tier, fault_rate=0.25, asrt=1, exhaustive=True):
     return out
 
 
+def _distinct_names(d) -> bool:
+    names = list(d["names"]) + [o[1] for o in d["ops"] if o[0] == "N"]
+    return len(set(names)) == len(names)
+
+
+def with_iter(d, t, rng):
+    """ask for dag_iterator of the final state too (it keys its visited set by name: distinct names only)"""
+    if d["asrt"] == 1 and d["n"] >= 1 and _distinct_names(d):
+        return dict(d, iter=rng.randrange(d["n"])), tuple(t) + ("iter",)
+    return d, t
+
+
 def gen(rng, tier):
-    cases = [mk_case(d, t) for d, t in gen_histories(rng, tier, 0.25, asrt=1)]
+    sub_it = random.Random(rng.random())
+    cases = [mk_case(*with_iter(d, t, sub_it)) for d, t in gen_histories(rng, tier, 0.25, asrt=1)]
     cases += [mk_case(d, t) for d, t in gen_shared_exhaustive(random.Random(rng.random()), tier)]
     if tier == "thorough":
         cases += [mk_case(d, t) for d, t in gen_exhaustive4(rng, 12)]
